@@ -88,6 +88,12 @@ def run(chk):
                 pv = dict(v[3]).get("0")
                 d = dict(pv[3]) if pv and pv[0] == "agg" else {}
                 first, second = d.get("first"), d.get("second")
+                second_given = any(flow.asserts_ok(t, l, lambda y: y == ("field", ("param", 1), "second")) for t, l, f, w in o.conds)
+                if second_given and second == normal.NONE:
+                    # a second input was supplied but no second salt is produced: the input was dropped instead of being
+                    # converted or rejected
+                    okh = okh and hashed[0] is not True
+                    okp = okp and hashed[0] is not False
                 if hashed[0] is True:
                     n_h += 1
                     s_ok = second == normal.NONE or (second is not None and second[0] == "agg" and second[2] == "Some" and salt_of(dict(second[3])["0"], ("payload", ("field", ("param", 1), "second"))))
